@@ -17,8 +17,18 @@
 //!   L:<j>:<0|1>                      link to node j down/up
 //!   B:<i>:<j>                        node i sends its pending mutations to node j as one batch
 //!   F:<i>                            node i forgets its pending mutations (batch window over)
+//!   T                                the batching interval of the REAL task distributors elapses (the only
+//!                                    place where time moves): every node sends everything registered with
+//!                                    its distributor since the last flush to every member it can reach
 //!   X:<j>:<i>                        node j runs one complete repair exchange against node i
 //!   XD:<j>:<i> XR:<j> XM:<j>:<i>     the three steps of an exchange, separately
+//!   XF:<j>:<i>                       a complete exchange during which every storage write of node j fails:
+//!                                    node j must stay as it is AND must not consider itself in sync
+//!   G:<j>:<i>:<kz>:<ka>:<kb>         node j's exchange against node i RACES with writes on node i: put kz
+//!                                    completes; put ka is held inside its storage call; the exchange
+//!                                    starts (its GetState queues behind ka); put kb is queued; ka is
+//!                                    released.  Observation `b:` = whether node j holds kb afterwards,
+//!                                    i.e. which of the two legal serialisations happened.
 //!   P:<i>                            purge on node i
 //!   R:<i>                            restart node i on its store
 //!   Q                                quiesce: links up, every ordered pair repairs once; then the
@@ -68,6 +78,9 @@ struct NodeH {
     ctx: ReplicationCycleContext<Faulty>,
     tracker: RepairTracker,
     pending: Vec<Mut>,
+    /// what the node's task distributor has been handed since its last flush
+    queued: Vec<Mut>,
+    distributor: Distributor,
     slot: Option<ExchangeDiff>,
     #[allow(dead_code)]
     keep: tokio::sync::watch::Sender<MembershipChange>,
@@ -80,7 +93,7 @@ async fn serve(addr: SocketAddr, group: &KeyspaceGroup<Faulty>, network: &RpcNet
     server
 }
 
-async fn make_node(id: usize, n: usize, store: Arc<Faulty>) -> NodeH {
+async fn make_node(id: usize, n: usize, store: Arc<Faulty>, with_members: bool) -> NodeH {
     let addr = addr_of(id);
     let clock = Clock::new(id as u8);
     let group = KeyspaceGroup::new(store.clone(), clock.clone()).await;
@@ -101,6 +114,16 @@ async fn make_node(id: usize, n: usize, store: Arc<Faulty>) -> NodeH {
         rx,
     );
     let distributor = start_distributor::<Faulty>(clock.clone(), network.clone(), id as u8, addr).await;
+    // In a distributor schedule (one with `T` events) the distributor knows the other members from
+    // the start, as the membership watcher would tell it.  Elsewhere it knows nobody: exchanges move
+    // the (virtual) clock by themselves - `begin_keyspace_sync` polls its progress every 250 ms -
+    // so a time-driven flush in the middle of a schedule could not be predicted by the model.
+    if with_members {
+    distributor.membership_change(MembershipChange {
+        joined: (0..n).filter(|j| *j != id).map(|j| ClusterMember::new(j as u8, addr_of(j), DC.to_string())).collect(),
+        left: Vec::new(),
+    });
+    }
     let handle = store_handle(node_handle.clone(), group.clone(), &distributor);
     let ctx = repair_context(group.clone(), network.clone());
     NodeH {
@@ -115,6 +138,8 @@ async fn make_node(id: usize, n: usize, store: Arc<Faulty>) -> NodeH {
         ctx,
         tracker: RepairTracker::default(),
         pending: Vec::new(),
+        queued: Vec::new(),
+        distributor,
         slot: None,
         keep,
     }
@@ -223,12 +248,13 @@ struct Outcome {
 /// the result line and the oracle failures.
 async fn run_schedule(n: usize, probes: &[u64], sched: &[String], stats: &mut hxcommon::Stats) -> Outcome {
     let mut nodes: Vec<NodeH> = Vec::new();
+    let dist_mode = sched.iter().any(|t| t == "T");
     for i in 0..n {
         datacake_rpc::verif::unregister_local_server(addr_of(i));
     }
     datacake_crdt::verif::set_wall_clock(Duration::from_millis(4 * 90_000_000));
     for i in 0..n {
-        nodes.push(make_node(i, n, Arc::new(Faulty::default())).await);
+        nodes.push(make_node(i, n, Arc::new(Faulty::default()), dist_mode).await);
     }
     let mut links = vec![true; n];
     let mut out = Outcome { case_toks: Vec::new(), results: Vec::new(), fails: Vec::new() };
@@ -299,6 +325,7 @@ async fn run_schedule(n: usize, probes: &[u64], sched: &[String], stats: &mut hx
                         Mut::DelMany(v) => issued.extend(v.iter().map(|(k, t)| (*k, *t, None))),
                     }
                     nodes[i].pending.push(m.clone());
+                    nodes[i].queued.push(m.clone());
                 }
                 let selv: Vec<String> = sel.iter().map(|x| x.to_string()).collect();
                 obs = format!("=sel:{};ts:{:x}", selv.join(","), stamp);
@@ -380,6 +407,38 @@ async fn run_schedule(n: usize, probes: &[u64], sched: &[String], stats: &mut hx
                 let i: usize = i.parse().unwrap();
                 nodes[i].pending.clear();
             },
+            ["T"] => {
+                tokio::time::sleep(Duration::from_millis(1100)).await;
+                settle().await;
+                // ---- C06 oracle: whatever the result of the call was, the mutation is replicated with
+                //      the next batch to every member the node can reach ----
+                for i in 0..n {
+                    let queued = std::mem::take(&mut nodes[i].queued);
+                    for j in 0..n {
+                        if j == i || !links[j] {
+                            continue;
+                        }
+                        let meta = metadata_of(&nodes[j]).await;
+                        for m in &queued {
+                            let items: Vec<(u64, u64)> = match m {
+                                Mut::Put(k, t, _) | Mut::Del(k, t) => vec![(*k, *t)],
+                                Mut::PutMany(v) => v.iter().map(|(k, t, _)| (*k, *t)).collect(),
+                                Mut::DelMany(v) => v.iter().map(|(k, t)| (*k, *t)).collect(),
+                            };
+                            for (k, t) in items {
+                                if !meta.iter().any(|(mk, mt, _)| *mk == k && HLCTimestamp::from_u64(*mt) >= HLCTimestamp::from_u64(t)) {
+                                    out.fails.push((
+                                        "mutation-not-replicated-with-next-batch".into(),
+                                        format!("{tok}: node {j} is reachable but does not hold {:x}@{:x} issued by node {i}", k, t),
+                                    ));
+                                }
+                            }
+                        }
+                    }
+                }
+                touched.extend(0..n);
+                stats.hit("distributor_flush");
+            },
             ["X", j, i] => {
                 let (j, i): (usize, usize) = (j.parse().unwrap(), i.parse().unwrap());
                 let mut peers = BTreeMap::new();
@@ -389,6 +448,20 @@ async fn run_schedule(n: usize, probes: &[u64], sched: &[String], stats: &mut hx
                 settle().await;
                 touched.push(j);
                 stats.hit("repair_full");
+            },
+            ["XF", j, i] => {
+                let (j, i): (usize, usize) = (j.parse().unwrap(), i.parse().unwrap());
+                let mut peers = BTreeMap::new();
+                peers.insert(i as u8, addr_of(i));
+                nodes[j].store.set_fail_all(true);
+                {
+                    let nj = &mut nodes[j];
+                    repair_peers(&nj.ctx, &peers, &mut nj.tracker).await;
+                }
+                settle().await;
+                nodes[j].store.set_fail_all(false);
+                touched.push(j);
+                stats.hit("repair_with_failing_storage");
             },
             ["XD", j, i] => {
                 let (j, i): (usize, usize) = (j.parse().unwrap(), i.parse().unwrap());
@@ -428,6 +501,53 @@ async fn run_schedule(n: usize, probes: &[u64], sched: &[String], stats: &mut hx
                 settle().await;
                 touched.push(j);
             },
+            ["G", j, i, kz, ka, kb] => {
+                let (j, i): (usize, usize) = (j.parse().unwrap(), i.parse().unwrap());
+                let (kz, ka, kb) = (hx(kz), hx(ka), hx(kb));
+                let pay = |k: u64| (0x6000 + k).to_le_bytes().to_vec();
+                // Z completes first, so that the exchange's poll finds the keyspace changed
+                let _ = nodes[i].handle.put(KS, kz, pay(kz), Consistency::None).await;
+                settle().await;
+                let store_i = nodes[i].store.clone();
+                let (h_a, h_b) = (nodes[i].handle.clone(), nodes[i].handle.clone());
+                let (pa, pb) = (pay(ka), pay(kb));
+                store_i.set_plan(Plan::Hold);
+                let ta = tokio::spawn(async move { h_a.put(KS, ka, pa, Consistency::None).await.is_ok() });
+                settle().await; // node i's actor now sits in the storage call of A
+                let mut peers = BTreeMap::new();
+                peers.insert(i as u8, addr_of(i));
+                {
+                    let nj = &mut nodes[j];
+                    let repair = repair_peers(&nj.ctx, &peers, &mut nj.tracker);
+                    let driver = async {
+                        settle().await; // the exchange has queued what it asks of node i's actor
+                        let tb = tokio::spawn(async move { h_b.put(KS, kb, pb, Consistency::None).await.is_ok() });
+                        settle().await;
+                        store_i.release();
+                        let _ = ta.await;
+                        let _ = tb.await;
+                    };
+                    tokio::join!(repair, driver);
+                }
+                settle().await;
+                let meta_i = metadata_of(&nodes[i]).await;
+                let stamp_of = |k: u64| meta_i.iter().find(|r| r.0 == k && !r.2).map(|r| r.1).unwrap_or(0);
+                let (tz, ta_, tb_) = (stamp_of(kz), stamp_of(ka), stamp_of(kb));
+                for (k, t) in [(kz, tz), (ka, ta_), (kb, tb_)] {
+                    if t == 0 {
+                        out.fails.push(("local-write-missing".into(), format!("{tok}: put of {:x} not readable on the issuer", k)));
+                    } else {
+                        issued.push((k, t, Some(0x6000 + k)));
+                        nodes[i].pending.push(Mut::Put(k, t, 0x6000 + k));
+                        nodes[i].queued.push(Mut::Put(k, t, 0x6000 + k));
+                    }
+                }
+                let has_b = metadata_of(&nodes[j]).await.iter().any(|r| r.0 == kb && r.1 == tb_ && !r.2);
+                obs = format!("=ts:{:x},{:x},{:x};b:{}", tz, ta_, tb_, has_b as u8);
+                touched.push(i);
+                touched.push(j);
+                stats.hit(if has_b { "race_exchange_saw_late_write" } else { "race_exchange_missed_late_write" });
+            },
             ["P", i] => {
                 let i: usize = i.parse().unwrap();
                 let ks = nodes[i].group.get_or_create_keyspace(KS).await;
@@ -439,7 +559,8 @@ async fn run_schedule(n: usize, probes: &[u64], sched: &[String], stats: &mut hx
                 let store = nodes[i].store.clone();
                 let pending = std::mem::take(&mut nodes[i].pending);
                 datacake_rpc::verif::unregister_local_server(addr_of(i));
-                let mut fresh = make_node(i, n, store).await;
+                nodes[i].distributor.kill();
+                let mut fresh = make_node(i, n, store, dist_mode).await;
                 fresh.pending = pending;
                 datacake_rpc::verif::set_link_up(addr_of(i), links[i]);
                 nodes[i] = fresh;
@@ -516,6 +637,10 @@ async fn run_schedule(n: usize, probes: &[u64], sched: &[String], stats: &mut hx
         }
         stats.hit("quiesced_histories");
     }
+    // the nodes of this case go away: their distributors must not flush into the next case
+    for nd in &nodes {
+        nd.distributor.kill();
+    }
     out
 }
 
@@ -549,6 +674,7 @@ fn random_schedule(rng: &mut Rng, n: usize, focus_c06: bool) -> Vec<String> {
     let mut have_slot = vec![false; n];
     let mut max_tick = tick;
     let mut restarted_since_max = false;
+    let mut race_key = 0x40u64;
     for _ in 0..len {
         // the wall clock moves (sometimes stalls or steps back a little): everything stays
         // well within one forgiveness period
@@ -569,7 +695,7 @@ fn random_schedule(rng: &mut Rng, n: usize, focus_c06: bool) -> Vec<String> {
         payload += 1;
         let i = rng.below(n as u64) as usize;
         let j = (i + 1 + rng.below(n as u64 - 1) as usize) % n;
-        let choice = if focus_c06 { rng.below(6) } else { rng.below(16) };
+        let choice = if focus_c06 { rng.below(6) } else { rng.below(17) };
         match choice {
             0 | 1 | 2 | 3 => {
                 let lvl = if focus_c06 || rng.chance(1, 2) { *rng.pick(&LEVELS) } else { "none" };
@@ -592,7 +718,8 @@ fn random_schedule(rng: &mut Rng, n: usize, focus_c06: bool) -> Vec<String> {
             4 | 5 => toks.push(format!("L:{}:{}", j, rng.below(2))),
             6 | 7 => toks.push(format!("B:{}:{}", i, j)),
             8 => toks.push(format!("F:{}", i)),
-            9 | 10 => toks.push(format!("X:{}:{}", j, i)),
+            9 => toks.push(format!("X:{}:{}", j, i)),
+            10 => toks.push(format!("X:{}:{}", j, i)),
             11 => {
                 toks.push(format!("XD:{}:{}", j, i));
                 have_slot[j] = true;
@@ -608,12 +735,62 @@ fn random_schedule(rng: &mut Rng, n: usize, focus_c06: bool) -> Vec<String> {
                 }
             },
             14 => toks.push(format!("P:{}", i)),
+            16 => {
+                // fresh ids, so that the three writes of the race are told apart
+                race_key += 3;
+                toks.push(format!("G:{}:{}:{:x}:{:x}:{:x}", j, i, race_key, race_key + 1, race_key + 2));
+            },
             _ => {
                 toks.push(format!("R:{}", i));
                 restarted_since_max = true;
             },
         }
     }
+    toks.push("Q".to_string());
+    toks
+}
+
+/// A distributor schedule: client operations at every level with links going up and down,
+/// restarts, and the batching interval of the real task distributors elapsing (`T`) - no
+/// exchanges before the final quiescence, so that `T` is the only place where time moves.
+fn random_distributor_schedule(rng: &mut Rng, n: usize) -> Vec<String> {
+    let keys = [1u64, 2, 3];
+    let mut toks: Vec<String> = Vec::new();
+    let mut tick = 90_000_100u64;
+    let mut payload = 0x7000 + rng.below(1000) * 16;
+    for _ in 0..(3 + rng.below(12)) {
+        tick += 1 + rng.below(2000);
+        toks.push(format!("W:{:x}", tick));
+        payload += 1;
+        let i = rng.below(n as u64) as usize;
+        let j = (i + 1 + rng.below(n as u64 - 1) as usize) % n;
+        match rng.below(10) {
+            0..=4 => {
+                let lvl = *rng.pick(&LEVELS);
+                toks.push(match rng.below(5) {
+                    0 | 1 => format!("I:{}:{}:p:{:x}:{:x}", i, lvl, rng.pick(&keys), payload),
+                    2 => format!("I:{}:{}:d:{:x}", i, lvl, rng.pick(&keys)),
+                    3 => {
+                        let m = 1 + rng.below(3) as usize;
+                        let items: Vec<String> = (0..m).map(|x| format!("{:x}.{:x}", rng.pick(&keys), payload + 0x1000 * x as u64)).collect();
+                        format!("I:{}:{}:P:{}", i, lvl, items.join(","))
+                    },
+                    _ => {
+                        let m = 1 + rng.below(3) as usize;
+                        let items: Vec<String> = (0..m).map(|_| format!("{:x}", rng.pick(&keys))).collect();
+                        format!("I:{}:{}:D:{}", i, lvl, items.join(","))
+                    },
+                });
+            },
+            5 | 6 => toks.push(format!("L:{}:{}", j, rng.below(2))),
+            7 | 8 => toks.push("T".to_string()),
+            _ => {
+                toks.push(format!("R:{}", i));
+                tick += 1;
+            },
+        }
+    }
+    toks.push("T".to_string());
     toks.push("Q".to_string());
     toks
 }
@@ -633,6 +810,11 @@ fn named_schedules() -> Vec<(usize, Vec<String>)> {
         (2, s(&["W:55d4a90", "L:1:0", "I:0:one:p:1:c1", "W:55d4a91", "L:1:1", "I:0:one:d:1", "B:0:1", "Q"])),
         // duplicated batch, restart in between
         (2, s(&["W:55d4a90", "I:0:none:P:1.d1,2.d2", "B:0:1", "B:0:1", "R:1", "B:0:1", "Q"])),
+        // an exchange whose writes all fail must be repeated: the node is not in sync afterwards
+        (2, s(&["W:55d4a90", "I:0:none:p:1:f1", "W:55d4a95", "I:0:none:d:2", "XF:1:0", "Q"])),
+        // an exchange races with writes on the polled node: what it did not see must still be pulled later
+        (2, s(&["W:55d4a90", "I:0:none:p:1:f1", "X:1:0", "W:55d4a95", "G:1:0:41:42:43", "Q"])),
+        (3, s(&["W:55d4a90", "I:0:none:p:1:f1", "W:55d4a95", "G:1:0:41:42:43", "X:2:0", "W:55d4a99", "G:2:1:44:45:46", "Q"])),
         // an id is re-put on another node while a third lags; the fetch races with the delete
         (3, s(&["W:55d4a90", "I:0:all:p:1:e1", "W:55d4a99", "L:2:0", "I:1:none:d:1", "W:55d4aa0", "I:0:none:p:1:e2",
                 "L:2:1", "XD:2:1", "X:1:0", "XM:2:1", "XR:2", "Q"])),
@@ -676,12 +858,25 @@ fn main() {
                                 }
                             }
                             s.push(format!("I:0:{}:{}", lvl, kind));
+                            // the unreachable replicas come back; the next batch must bring them the write
+                            for j in 1..n {
+                                if (mask >> (j - 1)) & 1 == 1 {
+                                    s.push(format!("L:{}:1", j));
+                                }
+                            }
+                            s.push("T".into());
                             s.push("Q".into());
                             run_case(&mut w, n, &probes, &s).await;
                         }
                     }
                 }
             }
+        }
+        let n_dist = if args.thorough() { 6_000 } else { 600 };
+        for _ in 0..n_dist {
+            let n = 2 + rng.below(3) as usize;
+            let s = random_distributor_schedule(&mut rng, n);
+            run_case(&mut w, n, &probes, &s).await;
         }
         let n_random = if args.thorough() { 30_000 } else { 3_000 };
         for _ in 0..n_random {
